@@ -40,3 +40,12 @@ package tcp
 //
 //@ func init
 //@   ensures ErrInvalidChecksum != nil
+//
+// Marshal is only ever called on headers without options (canary.send); that is its precondition.
+//@ func (*Header).Marshal
+//@   check safety
+//@   requires len(hdr.Options) == 0 && len(hdr.Padding) == 0
+//@   ensures result1 == nil && len(result0) == 20 + len(hdr.Payload) && fresh(result0)
+//@   modifies hdr.DataOffset, hdr.Padding
+//@   loop 1: invariant optionLength == 0
+//@   loop 2: invariant start == 20
